@@ -156,6 +156,18 @@ func (u *PsipURI) AdjustOffs(newpos PField) bool {
 		return false
 	}
 	start := u.Scheme.Offs
+	// real uri length (delimiters included): from the scheme start to the
+	// end of the last component present
+	ulen := u.Scheme.Len
+	for _, f := range [...]PField{u.User, u.Pass, u.Host, u.Port,
+		u.Params, u.Headers} {
+		if f.Offs != 0 {
+			ulen = f.Offs + f.Len - start
+		}
+	}
+	if ulen > newpos.Len {
+		return false // does not fit, leave the uri unchanged
+	}
 	last := offs
 	u.Scheme.Offs = offs
 	if u.User.Offs != 0 {
